@@ -137,18 +137,28 @@ def rand_inner(rng: random.Random, depth: int, pool) -> str:
 # approved ones under bash (only/ is granted at the top only, deep/ below sub/ only).
 CD_SLOTS = [
     "{A}; {B}", "{A} && {B}", "{A} || {B}", "{A}\n{B}", "{A} & {B}", "{A} | {B}", "( {A} ); {B}", "{ {A}; }; {B}", "{ {A}; {B}; }", "( {A}; {B} )",
-    "if {A}; then {B}; fi", "if {A}; then :; else {B}; fi", "if {A}; then :; elif {B}; then :; fi", "if {A}; then :; elif :; then {B}; fi",
-    "if :; then {A}; fi; {B}", "if false; then :; else {A}; fi; {B}", "if false; then :; elif {A}; then {B}; fi", "if {A}; then :; fi; {B}",
-    "if false; then :; elif {A}; then :; else {B}; fi", "if :; then {A}; {B}; fi", "if ! {A}; then {B}; fi",
-    "while {A}; do {B}; break; done", "while {A}; do break; done; {B}", "until {A}; do {B}; break; done", "until {A}; do break; done; {B}",
-    "while :; do {A}; break; done; {B}", "for v in a; do {A}; done; {B}", "for v in a b; do {B}; {A}; done", "for v in a; do {A}; {B}; done",
-    "case x in x) {A};; esac; {B}", "case x in x) {A};& y) {B};; esac", "case x in x) {A}; {B};; esac", "! {A}; {B}", "time {A}; {B}",
-    "{A}; ( {B} )", "{A}; echo $({B})", "{A}; cat <({B})", "{A}; { {B}; }", "{A}; if :; then {B}; fi", "{A}; while :; do {B}; break; done",
-    "{A}; for v in a; do {B}; done", "{A}; ls | {B}", "{A}; {B} &", "{A}; ! {B}", "{A}; time {B}", "{A}; ls; {B}", "{A} && ls && {B}",
-    "ls | {A}; {B}", "{A} > /dev/null; {B}", "{ {A}; } > /dev/null; {B}", "f() { {A}; }; {B}", "{A}; f() { {B}; }",
-    "select v in a; do {A}; break; done <<< 1; {B}", "for ((i=0;i<1;i++)); do {A}; done; {B}", "[[ -n a ]] && {A}; {B}", "(( 1 )) && {A} && {B}",
-    "{A}; [[ -n a ]] > only/g2", "{A}; (( 1 )) > deep/g2",
+    "if {A}; then {B}; fi", "if {A}; then true; else {B}; fi", "if {A}; then true; elif {B}; then true; fi", "if {A}; then true; elif true; then {B}; fi",
+    "if true; then {A}; fi; {B}", "if false; then true; else {A}; fi; {B}", "if false; then true; elif {A}; then {B}; fi", "if {A}; then true; fi; {B}",
+    "if false; then true; elif {A}; then true; else {B}; fi", "if true; then {A}; {B}; fi", "if ! {A}; then {B}; fi", "if {A}; then {B}; else {B}; fi",
+    "if false; then true; elif {A}; then true; elif false; then true; else {B}; fi",
+    "for v in a; do {A}; done; {B}", "for v in a b; do {B}; {A}; done", "for v in a; do {A}; {B}; done", "for v in a; do {A} && {B}; done",
+    "for v in a b; do {A} && {B}; done", "for ((i=0;i<2;i++)); do {B}; {A}; done", "for ((i=0;i<1;i++)); do {A}; done; {B}",
+    "case x in x) {A};; esac; {B}", "case x in x) {A};& y) {B};; esac", "case x in x) {A};;& x) {B};; esac", "case x in x) {A}; {B};; esac",
+    "case x in y) true;; x) {A};& z) true;& w) {B};; esac", "case x in x) {A};; y) {B};; esac; {B}",
+    "! {A}; {B}", "time {A}; {B}", "{A}; ( {B} )", "{A}; echo $({B})", "{A}; cat <({B})", "{A}; { {B}; }", "{A}; if true; then {B}; fi",
+    "{A}; for v in a; do {B}; done", "{A}; ls | {B}", "{A}; {B} &", "{A}; ! {B}", "{A}; time {B}", "{A}; ls; {B}", "{A} && ls && {B}", "{A} && ls; {B}",
+    "{A} && ls || {B}", "ls || {A} && {B}", "true || {A} && {B}", "false || {A} && {B}", "ls && {A} && {B}", "false && {A}; {B}", "ls & {A} && {B}",
+    "{A} && {B} & {B}", "ls | {A}; {B}", "{A} > /dev/null; {B}", "{ {A}; } > /dev/null; {B}", "f() { {A}; }; {B}", "{A}; f() { {B}; }",
+    "[[ -n a ]] && {A}; {B}", "(( 1 )) && {A} && {B}", "[[ -n a ]] && {A} && {B}", "{A}; [[ -n a ]] > only/g2", "{A}; (( 1 )) > deep/g2",
+    "coproc {A}; {B}", "{A} && coproc {B}", "{A}; {A}; {B}", "{A} && {A} && {B}", "{A}; {B}; {A}; {B}",
 ]
+# loops whose end depends on {A}: only with variants of A that let them end
+CD_LOOPS = [("while {A}; do {B}; done", ["cd sub", "cd sub && false", "cd nosuch", "cd sub; false", "cd ./sub/", "cd -- sub", "X=1 cd sub", "command cd sub", "cd sub > /dev/null"]),
+            ("while {A}; do true; done; {B}", ["cd sub", "cd sub && false", "cd nosuch", "cd ./sub/", "command cd sub"]),
+            ("until {A}; do {B}; done", ["cd sub", "cd sub || true", "cd .", "cd /", "cd sub/../sub"]),
+            ("until {A}; do true; done; {B}", ["cd sub", "cd sub || true", "cd ."]),
+            ("while {A} && {B}; do true; done", ["cd sub", "cd ./sub/", "cd nosuch"]),
+            ("while true; do {A} || exit 0; {B}; done", [])]
 CD_A = ["cd sub", "cd sub && false", "cd sub || true", "cd nosuch", "cd sub; false", "! cd sub", "cd sub > /dev/null", "X=1 cd sub", "pushd sub",
         "cd ./sub/", "cd sub/../sub", "cd sub && cd ..", "cd sub; cd sub", "cd -- sub", "cd -P sub", 'cd "$PWD"/sub', "cd $(echo sub)", "cd sub/.. && cd sub",
         "cd /", "cd .", "cd", "builtin cd sub", "command cd sub", "eval cd sub", "test -d sub && cd sub", "cd sub 2> /dev/null || exit 1"]
@@ -165,6 +175,10 @@ def cd_write_programs(tier, rng):
             if "{B}" not in tmpl and b != CD_B[0]:
                 continue
             out.append((f"cd-slot:{k}", tmpl.replace("{A}", a).replace("{B}", b)))
+    for k, (tmpl, avars) in enumerate(CD_LOOPS):
+        for a in avars:
+            for b in CD_B:
+                out.append((f"cd-loop:{k}", tmpl.replace("{A}", a).replace("{B}", b)))
     return out
 
 
